@@ -152,10 +152,190 @@ theorem xMkdirs_file_back : ∀ (ds : List Bytes) (t t1 : XTree), xMkdirs t ds =
     · exact ih _ _ h k d hk
     · cases h
 
+/-! ### Hard links of the reference name regular files of the reference -/
+
+/-- Every hard link of the reference names a regular file of the reference. -/
+def XBound (t : XTree) : Prop := ∀ k tg, alGet t k = some (.hard tg) → ∃ d, alGet t tg = some (.file d)
+
+/-- `mkdir -p` keeps every existing entry. -/
+theorem xMkdirs_keep : ∀ (ds : List Bytes) (t t1 : XTree), xMkdirs t ds = some t1 →
+    ∀ k x, alGet t k = some x → alGet t1 k = some x := by
+  intro ds
+  induction ds with
+  | nil => intro t t1 h k x hk; simp [xMkdirs] at h; subst h; exact hk
+  | cons d0 ds ih =>
+    intro t t1 h k x hk
+    simp only [xMkdirs] at h
+    split at h
+    · rename_i hnone
+      refine ih _ _ h k x ?_
+      rw [alGet_alSet]
+      split
+      · rename_i e; subst e; rw [hk] at hnone; cases hnone
+      · exact hk
+    · exact ih _ _ h k x hk
+    · cases h
+
+/-- What `mkdir -p` adds are directories. -/
+theorem xMkdirs_back : ∀ (ds : List Bytes) (t t1 : XTree), xMkdirs t ds = some t1 →
+    ∀ k x, alGet t1 k = some x → x = .dir ∨ alGet t k = some x := by
+  intro ds
+  induction ds with
+  | nil => intro t t1 h k x hk; simp [xMkdirs] at h; subst h; exact Or.inr hk
+  | cons d0 ds ih =>
+    intro t t1 h k x hk
+    simp only [xMkdirs] at h
+    split at h
+    · rcases ih _ _ h k x hk with h' | h'
+      · exact Or.inl h'
+      · rw [alGet_alSet] at h'
+        split at h'
+        · cases h'; exact Or.inl rfl
+        · exact Or.inr h'
+    · exact ih _ _ h k x hk
+    · cases h
+
+theorem xMkdirs_bound (ds : List Bytes) (t t1 : XTree) (hb : XBound t) (h : xMkdirs t ds = some t1) : XBound t1 := by
+  intro k tg hk
+  rcases xMkdirs_back ds t t1 h k _ hk with h' | h'
+  · cases h'
+  · obtain ⟨d, hd⟩ := hb k tg h'
+    exact ⟨d, xMkdirs_keep ds t t1 h tg _ hd⟩
+
+theorem XBound.set {t : XTree} (hb : XBound t) (n : Bytes) (x : XNode)
+    (hn : (∃ d, x = .file d) ∨ ∀ d, alGet t n ≠ some (.file d))
+    (hx : ∀ tg, x = .hard tg → tg ≠ n ∧ ∃ d, alGet t tg = some (.file d)) : XBound (alSet t n x) := by
+  intro k tg hk
+  rw [alGet_alSet] at hk
+  split at hk
+  · simp only [Option.some.injEq] at hk
+    obtain ⟨hne, d, hd⟩ := hx tg hk
+    refine ⟨d, ?_⟩
+    rw [alGet_alSet, if_neg (fun e => hne e.symm)]
+    exact hd
+  · obtain ⟨d, hd⟩ := hb k tg hk
+    rw [alGet_alSet]
+    split
+    · rename_i e
+      rcases hn with ⟨d', rfl⟩ | hn
+      · exact ⟨d', rfl⟩
+      · subst e; exact absurd hd (hn d)
+    · exact ⟨d, hd⟩
+
+/-- A name that is new is, after `mkdir -p` of other names, not a regular file. -/
+theorem xMkdirs_fresh_nofile (ds : List Bytes) (t t1 : XTree) (h : xMkdirs t ds = some t1) (n : Bytes)
+    (hn : alGet t n = none) : ∀ d, alGet t1 n ≠ some (.file d) := by
+  intro d hd
+  rcases xMkdirs_back ds t t1 h n _ hd with h' | h'
+  · cases h'
+  · rw [hn] at h'; cases h'
+
+theorem xInsert_bound (t t2 : XTree) (m : Member) (hb : XBound t) (h : xInsert t m = some t2) : XBound t2 := by
+  unfold xInsert at h
+  simp only at h
+  generalize normPath m.name = n at h
+  cases hk : m.kind with
+  | dir =>
+    simp only [hk] at h
+    cases hget : alGet t n with
+    | some node => simp only [hget, Option.some.injEq] at h; subst h; exact hb
+    | none => simp only [hget] at h; exact xMkdirs_bound _ _ _ hb h
+  | reg =>
+    simp only [hk] at h
+    split at h
+    · cases h
+    · cases hA : xMkdirs t (prefixesOf n).dropLast with
+      | none => simp [hA] at h
+      | some t1 =>
+        simp only [hA] at h
+        have hb1 := xMkdirs_bound _ _ _ hb hA
+        split at h
+        · cases h; exact hb1.set n _ (Or.inl ⟨_, rfl⟩) (by intro tg e; cases e)
+        · cases h; exact hb1.set n _ (Or.inl ⟨_, rfl⟩) (by intro tg e; cases e)
+        · cases h
+  | sym =>
+    simp only [hk] at h
+    cases hget : alGet t n with
+    | some node => simp [hget] at h
+    | none =>
+      simp only [hget] at h
+      cases hA : xMkdirs t (prefixesOf n).dropLast with
+      | none => simp [hA] at h
+      | some t1 =>
+        simp only [hA, Option.map, Option.some.injEq] at h
+        subst h
+        exact (xMkdirs_bound _ _ _ hb hA).set n _ (Or.inr (xMkdirs_fresh_nofile _ _ _ hA n hget)) (by intro tg e; cases e)
+  | special =>
+    simp only [hk] at h
+    cases hget : alGet t n with
+    | some node => simp [hget] at h
+    | none =>
+      simp only [hget] at h
+      cases hA : xMkdirs t (prefixesOf n).dropLast with
+      | none => simp [hA] at h
+      | some t1 =>
+        simp only [hA, Option.map, Option.some.injEq] at h
+        subst h
+        exact (xMkdirs_bound _ _ _ hb hA).set n _ (Or.inr (xMkdirs_fresh_nofile _ _ _ hA n hget)) (by intro tg e; cases e)
+  | link =>
+    simp only [hk] at h
+    cases hget : alGet t n with
+    | some node => simp [hget] at h
+    | none =>
+      simp only [hget] at h
+      cases hA : xMkdirs t (prefixesOf n).dropLast with
+      | none => simp [hA] at h
+      | some t1 =>
+        simp only [hA] at h
+        have hnf := xMkdirs_fresh_nofile _ _ _ hA n hget
+        cases htgt : alGet t1 (normLink .link n m.link) with
+        | none => simp [htgt] at h
+        | some node =>
+          cases node with
+          | file d =>
+            simp only [htgt, Option.some.injEq] at h
+            subst h
+            refine (xMkdirs_bound _ _ _ hb hA).set n _ (Or.inr hnf) ?_
+            intro tg e
+            cases e
+            refine ⟨?_, d, htgt⟩
+            intro e
+            rw [e] at htgt
+            exact hnf d htgt
+          | dir => simp [htgt] at h
+          | sym x => simp [htgt] at h
+          | hard x => simp [htgt] at h
+          | special => simp [htgt] at h
+
+theorem xRoot_bound : XBound xRoot := by
+  intro k tg hk
+  simp only [xRoot, alGet] at hk
+  split at hk <;> cases hk
+
+/-- In a view that presents a reference whose hard links are bound, a
+    directory member over an existing name changes nothing. -/
+theorem dirOverLink_id {fs : FS} {t : XTree} (hrep : Rep [] fs t) (hb : XBound t) (m : Member) :
+    dirOverLink fs m = fs := by
+  unfold dirOverLink
+  split
+  · rename_i idx hkind hidx
+    split
+    · rename_i hc
+      obtain ⟨hl, hnone⟩ := hc
+      have hnode : fs.node? (normPath m.name) = some (.hard (fs.ino idx).link) := by
+        simp [FS.node?, hidx, inoNode, hl]
+      rw [hrep _ (by simp)] at hnode
+      obtain ⟨d, hd⟩ := hb _ _ hnode
+      rw [← hrep _ (by simp)] at hd
+      obtain ⟨j, hj⟩ := node?_some hd
+      simp [hj] at hnone
+    · rfl
+  · rfl
+
 /-- One member with a defined extraction: `addMembers` goes on from a
     tree-consistent view that presents the reference with the member inserted. -/
 theorem member_step (m : Member) (ms : List Member) (fs : FS) (t t2 : XTree)
-    (h : TreeOK [] fs) (hrep : Rep [] fs t) (hins : xInsert t m = some t2) :
+    (h : TreeOK [] fs) (hrep : Rep [] fs t) (hxb : XBound t) (hins : xInsert t m = some t2) :
     ∃ fs2, addMembers fs [] (m :: ms) = addMembers fs2 [] ms ∧ TreeOK [] fs2 ∧ Rep [] fs2 t2 := by
   have hn : Contained (normPath m.name) := contained_normPath _
   have hnode := hrep (normPath m.name) (by simp)
@@ -172,7 +352,7 @@ theorem member_step (m : Member) (ms : List Member) (fs : FS) (t t2 : XTree)
       rw [hget] at hnode
       obtain ⟨i, hi⟩ := node?_some hnode
       refine ⟨fs, ?_, h, hrep⟩
-      simp [addMembers, prepMember, hk, hnn, hi]
+      simp [addMembers, prepMember, hk, hnn, hi, dirOverLink_id hrep hxb m]
     | none =>
       simp only [hget] at hins
       rw [hget] at hnode
@@ -365,24 +545,24 @@ theorem member_step (m : Member) (ms : List Member) (fs : FS) (t t2 : XTree)
 
 /-- The members of a link-free archive, one after the other. -/
 theorem addMembers_plain : ∀ (ms : List Member) (fs : FS) (t t' : XTree),
-    TreeOK [] fs → Rep [] fs t → extractFrom t ms = some t' →
+    TreeOK [] fs → Rep [] fs t → XBound t → extractFrom t ms = some t' →
     ∃ fs', addMembers fs [] ms = .ok (fs', []) ∧ TreeOK [] fs' ∧ Rep [] fs' t' := by
   intro ms
   induction ms with
   | nil =>
-    intro fs t t' h hrep hx
+    intro fs t t' h hrep hxb hx
     simp only [extractFrom, Option.some.injEq] at hx
     subst hx
     exact ⟨fs, rfl, h, hrep⟩
   | cons m ms ih =>
-    intro fs t t' h hrep hx
+    intro fs t t' h hrep hxb hx
     simp only [extractFrom] at hx
     cases hins : xInsert t m with
     | none => simp [hins] at hx
     | some t2 =>
       simp only [hins] at hx
-      obtain ⟨fs2, he, h2, hrep2⟩ := member_step m ms fs t t2 h hrep hins
-      obtain ⟨fs', hfs', hT, hR⟩ := ih fs2 t2 t' h2 hrep2 hx
+      obtain ⟨fs2, he, h2, hrep2⟩ := member_step m ms fs t t2 h hrep hxb hins
+      obtain ⟨fs', hfs', hT, hR⟩ := ih fs2 t2 t' h2 hrep2 (xInsert_bound t t2 m hxb hins) hx
       exact ⟨fs', by rw [he, hfs'], hT, hR⟩
 
 theorem rootFS_treeOK : TreeOK [] rootFS := by
@@ -427,7 +607,7 @@ theorem rootFS_rep : Rep [] rootFS xRoot := by
     is tree-consistent and presents exactly the extracted tree. -/
 theorem newFS_plain (ms : List Member) (t : XTree) (hx : extract ms = some t) :
     ∃ fs, newFS ms = .ok fs ∧ TreeOK [] fs ∧ Rep [] fs t := by
-  obtain ⟨fs, hadd, hT, hR⟩ := addMembers_plain ms rootFS xRoot t rootFS_treeOK rootFS_rep hx
+  obtain ⟨fs, hadd, hT, hR⟩ := addMembers_plain ms rootFS xRoot t rootFS_treeOK rootFS_rep xRoot_bound hx
   refine ⟨fs, ?_, hT, hR⟩
   simp [newFS, hadd, cleanup]
 
